@@ -12,7 +12,6 @@ Workload (b): bounds() / number_of_bulks() against exact integer arithmetic (c03
 """
 import json
 import math
-import os
 import random
 from fractions import Fraction
 
@@ -46,28 +45,28 @@ REQUIRED_CLAUSES = [
 ] + arith.CLAUSES
 REQUIRED_FEATURES = {
     "quick": {
-        "offset-table-seek": 20, "big-skip-without-table": 2, "multi-byte": 50, "crlf": 50, "action-meta-data-file": 50, "generated-meta-data": 50,
+        "offset-table-seek": 10, "offset-table-exact-entry": 2, "big-skip-without-table": 2, "multi-byte": 50, "crlf": 50, "action-meta-data-file": 50, "generated-meta-data": 50,
         "multi-corpus": 30, "multi-file": 30, "colocated-clients": 100, "split-hosts": 30, "split-random": 30, "split-allocator": 10,
         "batch-gt-bulk": 20, "ingest-partial": 40, "conflicts-sequential": 15, "conflicts-random": 15, "on-conflict-update": 15, "recency": 10,
         "more-clients-than-docs": 20, "zero-doc-file": 10, "arith-huge-total": 100, "arith-many-clients": 20, "update-actions-seen": 10,
     },
     "thorough": {
-        "offset-table-seek": 200, "offset-table-two-entries": 20, "big-skip-without-table": 20, "multi-byte": 500, "crlf": 500, "action-meta-data-file": 500,
-        "generated-meta-data": 500, "multi-corpus": 300, "multi-file": 300, "colocated-clients": 1000, "split-hosts": 300, "split-random": 300,
-        "split-allocator": 100, "batch-gt-bulk": 200, "ingest-partial": 400, "conflicts-sequential": 150, "conflicts-random": 150, "on-conflict-update": 150,
-        "recency": 100, "more-clients-than-docs": 200, "zero-doc-file": 100, "arith-huge-total": 1000, "arith-many-clients": 200, "update-actions-seen": 100,
+        "offset-table-seek": 50, "offset-table-exact-entry": 5, "offset-table-two-entries": 5, "big-skip-without-table": 5, "multi-byte": 300, "crlf": 300, "action-meta-data-file": 150,
+        "generated-meta-data": 300, "multi-corpus": 150, "multi-file": 150, "colocated-clients": 300, "split-hosts": 100, "split-random": 100,
+        "split-allocator": 50, "batch-gt-bulk": 100, "ingest-partial": 200, "conflicts-sequential": 75, "conflicts-random": 75, "on-conflict-update": 75,
+        "recency": 50, "more-clients-than-docs": 100, "zero-doc-file": 50, "arith-huge-total": 1000, "arith-many-clients": 200, "update-actions-seen": 50,
     },
 }
 BUDGET = {
-    "quick": {"cases": 400000, "seconds": 36},
+    "quick": {"cases": 400000, "seconds": 32},
     "thorough": {"cases": 6000000, "seconds": 540},
 }
-ARITH_PER_FILE_CASE = 6
+ARITH_PER_FILE_CASE = {"quick": 6, "thorough": 30}
 
 # (docs, meta, crlf, mb): files whose line count is around / above the 50000-line spacing of the offset table
 BIG_QUICK = [
-    (49999, False, 0, True), (50000, False, 7, True), (50001, False, 1, False), (60000, False, 3, True), (25000, True, 3, True), (25001, True, 0, True),
-    (30000, True, 1, True), (55555, False, 1000, True), (50002, False, 2, True), (27500, True, 7, False), (59999, False, 0, False), (25003, True, 2, True),
+    (60000, False, 3, True), (30000, True, 3, True), (59999, False, 7, True), (55555, False, 1000, True), (29999, True, 1, True), (57001, False, 2, False),
+    (60000, False, 1, True), (28000, True, 0, True), (58000, False, 0, True), (50001, False, 1, False), (25000, True, 3, True), (49999, False, 0, True),
 ]
 BIG_THOROUGH = BIG_QUICK + [
     (100000, False, 3, True), (100001, False, 1, True), (120000, False, 7, True), (60000, True, 3, True), (99999, False, 0, True), (50000, True, 1, True),
@@ -131,13 +130,25 @@ def gen_case(rng, tier, shard):
     n = rng.choice([1, 2, 2, 3, 4, 4, 5, 7, 8, 8, 12, 16, 31, 32, rng.randint(1, 32), rng.randint(1, 32)])
     conflicts = rng.choice([None, None, None, None, None, "sequential", "sequential", "random", "random"])
     big = rng.random() < (0.14 if tier == "quick" else 0.3)
+    probe = big and rng.random() < (0.25 if tier == "quick" else 0.35)
+    if probe:
+        n = rng.choice([6, 6, 12, 12, 24, 30, 2, 4])  # 60000 * 5/6 = 50000, 100000 / 2 = 50000, 120000 * 5/12 = 50000, ...
+    elif big and rng.random() < 0.8:
+        n = rng.choice([6, 8, 8, 12, 16, 16, 24, 31, 32])  # so that some client starts beyond line 50000
     ncorp = rng.choice([1, 1, 1, 2, 2, 3])
+    use_streams = (not conflicts) and rng.random() < 0.2
     corpora, used = [], set()
     fi = 0
     for c in range(ncorp):
         files = []
         for _ in range(rng.choice([1, 1, 2, 3])):
-            if big and fi == 0:
+            if big and fi == 0 and probe:
+                # a fresh file whose clients start exactly on / shortly after the lines the offset table knows (50000, 100000): the byte offset
+                # recorded by the text-mode tell() of the table builder is then used as is by the mmap reader
+                lines = rng.choice([60000] if tier == "quick" else [60000, 100000, 120000, 100002])
+                meta = (not conflicts) and rng.random() < 0.35
+                spec = {"docs": lines // 2 if meta else lines, "meta": meta, "crlf": rng.choice([1, 1, 2, 3]), "mb": True, "eofnl": True, "seed": rng.randint(2, 10**6)}
+            elif big and fi == 0:
                 menu = BIG_QUICK if tier == "quick" else BIG_THOROUGH
                 per_shard = 2 if tier == "quick" else 4
                 docs, meta, crlf, mb = menu[(shard * per_shard + rng.randrange(per_shard)) % len(menu)]
@@ -154,14 +165,15 @@ def gen_case(rng, tier, shard):
                         break
             used.add(cfiles.spec_uid(spec))
             f = {"spec": spec}
-            if conflicts or rng.random() < 0.8:
-                f["index"] = f"idx{rng.randint(0, 2)}"
-            elif spec["meta"] and rng.random() < 0.5:
-                pass  # no target at all: allowed when the file brings its own action lines
-            else:
-                f["ds"] = f"ds{rng.randint(0, 1)}"
-            if rng.random() < 0.15:
-                f["type"] = rng.choice(["_doc", "t1"])
+            # what the track loader can produce: a file with its own action lines has no target at all; otherwise the track uses either indices
+            # (optionally with a type) or data streams (never with a type), not both
+            if not spec["meta"]:
+                if use_streams:
+                    f["ds"] = f"ds{rng.randint(0, 1)}"
+                else:
+                    f["index"] = f"idx{rng.randint(0, 2)}"
+                    if rng.random() < 0.15:
+                        f["type"] = rng.choice(["_doc", "t1"])
             files.append(f)
             fi += 1
         corpora.append({"name": f"c{c}", "files": files})
@@ -376,7 +388,6 @@ class Execution:
             parsed = None
         if len(fi.action_ok) < 4096 or not self.conflict_mode:
             fi.action_ok[a_line] = (res, parsed)
-        self._last_parsed = parsed
         return res
 
     def slow_bulk(self, gi, group, lines, terminated):
@@ -562,7 +573,7 @@ def run_group(obs, ex, tr, case, gi, group, ingest, max_calls):
             ex.problem(
                 "percent-completed",
                 f"{g}: reading percent_completed raised {type(e).__name__}: {e} (bulks emitted by this group so far: {calls}, co-located clients that already got StopIteration: {stopped})",
-                {"exception": type(e).__name__, "bulks_emitted": calls, "clients_stopped": stopped, "group_clients": len(group)},
+                {"exception": type(e).__name__, "bulks_emitted": calls, "clients_stopped": stopped, "group_clients": len(group), "group_index": gi},
             )
         if pc is not None:
             if not (isinstance(pc, (int, float)) and 0 <= pc <= 1):
@@ -615,6 +626,15 @@ def run_case(obs, env, case):
     for gi, group in enumerate(groups):
         run_group(obs, full, tr, case, gi, group, None if partial else ingest, max_calls)
     full.end_full(groups)
+    # ground truth for "this group has nothing to read": the other groups together delivered every document exactly once and this one delivered none
+    complete = not any(c in ("exactly-once", "completes", "doc-identity") for c, _, _ in full.problems)
+
+    def annotate(ps):
+        for c, m, d in ps:
+            if c == "percent-completed" and "group_index" in d:
+                d["group_slice_empty"] = complete and not full.runs.get(d["group_index"])
+
+    annotate(full.problems)
     problems = [(c, m, dict(d, run="100%")) for c, m, d in full.problems]
     updates = full.updates
     if partial:
@@ -640,6 +660,7 @@ def run_case(obs, env, case):
                     f"but bulk #{firstdiff} of the full run is {full.bulks[gi][firstdiff] if firstdiff < n100 else None} (file, first line, docs)",
                     {"bulk": firstdiff},
                 )
+        annotate(part.problems)
         problems += [(c, m, dict(d, run=f"{ingest}%")) for c, m, d in part.problems]
         updates += part.updates
     facts = {"updates": updates, "finfo": finfo, "full": full}
@@ -652,6 +673,9 @@ def run_case(obs, env, case):
 class _Null:
     def clause(self, *a, **k):
         pass
+
+
+_SHRUNK = {}
 
 
 def case_features(case, finfo, full, updates):
@@ -710,6 +734,8 @@ def case_features(case, finfo, full, updates):
                 feats.add("offset-table-seek" if case["table"] == "built" else "big-skip-without-table")
                 if start_line >= 100000 and case["table"] == "built":
                     feats.add("offset-table-two-entries")
+                if start_line in (50000, 100000) and case["table"] == "built":
+                    feats.add("offset-table-exact-entry")  # no line is skipped after the seek: the recorded byte offset is used as is
     return feats
 
 
@@ -737,7 +763,8 @@ def file_case(ctx, env, case, do_shrink=True):
         if (clause, key) in reported:
             continue
         reported.add((clause, key))
-        wcase = shrink(env, case, clause, key) if do_shrink else case
+        _SHRUNK[(clause, key)] = _SHRUNK.get((clause, key), 0) + 1
+        wcase = shrink(env, case, clause, key) if do_shrink and _SHRUNK[(clause, key)] <= 3 else case
         if wcase is not case:
             again = [p for p in run_case(_Null(), env, wcase)[0] if p[0] == clause and classify({"clause": clause, "witness": {"detail": p[2]}, "msg": p[1]}) == key]
             if again:
@@ -748,7 +775,7 @@ def file_case(ctx, env, case, do_shrink=True):
     return problems
 
 
-def shrink(env, case, clause, key, max_attempts=60):
+def shrink(env, case, clause, key, max_attempts=120):
     """Greedy: drop corpora / files, shrink files, simplify the operation while the same clause (and the same mechanism key) still fails."""
     if sum(f["spec"]["docs"] for c in case["corpora"] for f in c["files"]) > 20000:
         return case
@@ -775,16 +802,25 @@ def shrink(env, case, clause, key, max_attempts=60):
             for j, f in enumerate(co["files"]):
                 d = f["spec"]["docs"]
                 for nd in sorted({0, 1, d // 2, d - 1} - {d}):
-                    if nd >= 0:
+                    if 0 <= nd < d:
                         nf = dict(f, spec=dict(f["spec"], docs=nd))
                         yield dict(c, corpora=cor[:i] + [dict(co, files=co["files"][:j] + [nf] + co["files"][j + 1 :])] + cor[i + 1 :])
                 for k, v in (("mb", False), ("crlf", 0), ("eofnl", True)):
                     if f["spec"][k] != v:
                         nf = dict(f, spec=dict(f["spec"], **{k: v}))
                         yield dict(c, corpora=cor[:i] + [dict(co, files=co["files"][:j] + [nf] + co["files"][j + 1 :])] + cor[i + 1 :])
-        for k in ("batch-size", "pipeline", "recency", "indices"):
+        for k in ("batch-size", "pipeline", "recency", "indices", "corpora", "conflict-probability", "on-conflict", "conflicts"):
             if k in c["op"]:
                 yield dict(c, op={a: b for a, b in c["op"].items() if a != k})
+        if c["ingest"] is not None:
+            yield dict(c, ingest=None)
+        n = c["clients"]
+        for m in sorted({1, 2, 3, 4, n // 2, n - 1}):
+            if 1 <= m < n:
+                halves = [g for g in (list(range(0, m // 2)), list(range(m // 2, m))) if g]
+                for groups in (halves, [list(range(m))], [[i] for i in range(m)]):
+                    if groups != c["groups"] or m != n:
+                        yield dict(c, clients=m, groups=groups, split={"mode": "random", "shrunk": True})
         if c["table"] == "absent":
             yield dict(c, table="built")
         if c["order"] != "round-robin":
@@ -823,7 +859,7 @@ def run_shard(ctx):
     i = 0
     while ctx.more():
         rng = ctx.case_rng(i)
-        if i % (ARITH_PER_FILE_CASE + 1) == 0:
+        if i % (ARITH_PER_FILE_CASE[ctx.tier] + 1) == 0:
             file_case(ctx, env, gen_case(rng, ctx.tier, ctx.shard))
         else:
             arith_case(ctx, arith.gen(rng, ctx.tier))
@@ -839,6 +875,7 @@ def classify(v):
         and d.get("bulks_emitted") == 0
         and d.get("clients_stopped", 0) >= 1
         and d.get("group_clients", 0) >= 2
+        and d.get("group_slice_empty") is True
     ):
         # a worker group whose slice of every file is empty: the first co-located client gets StopIteration (total_bulks becomes 0),
         # the next one reads percent_completed = 0 / 0
